@@ -86,8 +86,8 @@ func (b *c01RR) update(ms []beSpec) error {
 	return nil
 }
 func (b *c01RR) handles() map[string][]*backend.BfeBackend { return rrHandles(b.brr) }
-func (b *c01RR) credits() []string                          { return rrCredits(b.brr) }
-func (b *c01RR) order() []string                            { return rrOrder(b.brr) }
+func (b *c01RR) credits() []string                         { return rrCredits(b.brr) }
+func (b *c01RR) order() []string                           { return rrOrder(b.brr) }
 
 type c01Gslb struct {
 	r     *rig
